@@ -452,3 +452,55 @@ func zzC18gCloseReportsError() {
 	vf.Reach("end")
 }
 func zzC18gCloseReportsErrorDev1() { zzDeviations = 1; zzC18gCloseReportsError() }
+
+// C18.h: a control ping arrives on a connection that breaks before its pong can be written; the
+// connection is replaced by a redial; a ping arriving on the new connection is answered with a pong
+// on the new connection and filtered out of Read, and data behind it is still delivered.
+func zzC18hPingAcrossRedial() {
+	vf.Deviations(zzDeviations)
+	d := &zzDialer{handshakeFrom: 1}
+	t, err := Dial(DialConfig{Dialer: d, DialConfig: transport.DialConfig{TransportID: "t"}, MaxReconnectAttempts: 2, ReconnectInterval: time.Millisecond})
+	vf.Assume(err == nil)
+	defer t.Close()
+	vf.Settle()
+	first := d.made[0]
+	first.mu.Lock()
+	first.writeErrs = 1000 // every write on the first connection fails from now on
+	first.mu.Unlock()
+	if vf.Choose("ping.on.the.breaking.connection", 2) == 1 {
+		first.in <- append([]byte{}, PingMessage...)
+		vf.Settle()
+		first.Close() // ... and the read side notices the break as well
+	} else {
+		vf.Assert("write-survives-the-break", t.Write([]byte{5}) == nil)
+	}
+	vf.Settle()
+	vf.Advance(10 * time.Millisecond)
+	vf.Settle()
+	vf.Assert("redialled", d.dials >= 2 && len(d.made) >= 2)
+	if len(d.made) < 2 {
+		return
+	}
+	cur := d.made[len(d.made)-1]
+	pongs := func() int {
+		n := 0
+		for _, w := range cur.wrote() {
+			if IsPong(w) {
+				n++
+			}
+		}
+		return n
+	}
+	p0 := pongs()
+	cur.in <- append([]byte{}, PingMessage...)
+	payload := []byte{42}
+	cur.in <- payload
+	vf.Settle()
+	vf.Assert("ping-on-the-new-connection-answered", pongs() >= p0+1)
+	var got []byte
+	var rerr error
+	blocked := vf.Blocked(func() { got, rerr = t.Read() })
+	vf.Assert("data-behind-the-ping-delivered", !blocked && rerr == nil && zzEq(got, payload))
+	vf.Reach("end")
+}
+func zzC18hPingAcrossRedialDev1() { zzDeviations = 1; zzC18hPingAcrossRedial() }
